@@ -4,3 +4,5 @@ import Prism.Proofs.C18
 #print axioms Prism.C18_within_64k
 #print axioms Prism.C18_bufsize_matches_code
 #print axioms Prism.C18_result_is_functional
+#print axioms Prism.C18_auto_chain
+#print axioms Prism.C18_auto_within_64k
